@@ -169,6 +169,7 @@ def run(ctx):
     cases = []
     for _ in range(nsig):
         sig = gen_sig(ctx.rng)
+        counter[0] = 100          # value identifiers only have to be distinct within one signature's calls (and stay small nat literals)
         cases.append({'sig': sig, 'calls': [gen_call(ctx.rng, sig, counter) for _ in range(10)]})
     failures = 0
     rows, index = [], []
